@@ -113,7 +113,8 @@ def h_roundtrip(ctx, shapes, fmt, write_date, sign_rot=0):
     for i in range(len(wants)):
         for j in range(i + 1, len(wants)):
             ctx.assume(wants[i]['name'] != wants[j]['name'])
-    arg = sps if fmt != 'dictin' else {('k%d' % i): s for i, s in enumerate(sps)}
+    # dictionary input: keys deliberately not in sorted order (the dictionary's own order is the species order)
+    arg = sps if fmt != 'dictin' else {('k%d' % (len(sps) - 1 - i)): s for i, s in enumerate(sps)}
     text, back = _roundtrip(ctx, arg, 'list' if fmt == 'dictin' else fmt, write_date)
     # layout of what was written
     lines = text.split('\n')
